@@ -51,6 +51,7 @@ import (
 	"fmt"
 	"sort"
 	"strings"
+	"sync"
 
 	"github.com/btcsuite/btcd/btcec/v2"
 	"github.com/btcsuite/btcd/btcec/v2/ecdsa"
@@ -303,11 +304,30 @@ func (m *c20Model) zombieVerdict(v *c20Verdict, cands []int, observed []uint64) 
 // ---------------------------------------------------------------------------
 // primitive checks
 
-// c20SigOK verifies a 64-byte compact signature over double-SHA256(data).
+// c20SigOK verifies a 64-byte compact signature over double-SHA256(data). It is a
+// pure function of its arguments; results are memoised (the explorer judges the
+// same catalogue messages many thousand times).
 func c20SigOK(sig []byte, pub [33]byte, data []byte) bool {
 	if len(sig) != 64 {
 		return false
 	}
+	h := sha256.New()
+	h.Write(sig)
+	h.Write(pub[:])
+	h.Write(data)
+	var k [32]byte
+	h.Sum(k[:0])
+	if v, ok := c20SigMemo.Load(k); ok {
+		return v.(bool)
+	}
+	ok := c20SigVerify(sig, pub, data)
+	c20SigMemo.Store(k, ok)
+	return ok
+}
+
+var c20SigMemo sync.Map
+
+func c20SigVerify(sig []byte, pub [33]byte, data []byte) bool {
 	var r, s btcec.ModNScalar
 	if r.SetByteSlice(sig[:32]) || s.SetByteSlice(sig[32:]) || r.IsZero() || s.IsZero() {
 		return false
@@ -321,12 +341,12 @@ func c20SigOK(sig []byte, pub [33]byte, data []byte) bool {
 
 // c20Verdict is the model's judgement of one message in one state.
 type c20Verdict struct {
-	Valid      bool     // authentic, fresh and consistent: the graph must change
-	Why        string   // outcome class
-	Suppressed string   // a documented rule under which lnd may drop this valid message
-	Finals     [][]string // acceptable renderings of the graph after the step (len 1 unless replay order matters)
+	Valid      bool        // authentic, fresh and consistent: the graph must change
+	Why        string      // outcome class
+	Suppressed string      // a documented rule under which lnd may drop this valid message
+	Finals     [][]string  // acceptable renderings of the graph after the step (len 1 unless replay order matters)
 	After      []*c20Model // the model states matching Finals
-	Relayable  [][]byte // wire encodings that may be handed to peers in this step
+	Relayable  [][]byte    // wire encodings that may be handed to peers in this step
 }
 
 func (m *c20Model) unchanged(why string) *c20Verdict {
@@ -353,6 +373,18 @@ func (m *c20Model) step(msg *c20Msg, now int64) *c20Verdict {
 		return m.stepNA(msg, d)
 	}
 	return m.unchanged("not-a-gossip-message")
+}
+
+// withTouch returns m with the lookup provenance of scid recorded (m itself if
+// nothing changes).
+func (m *c20Model) withTouch(scid uint64) *c20Model {
+	if (m.restarts == 0 && !m.tinyCache) || (m.warm[scid] && m.last == scid) {
+		return m
+	}
+	c := m.clone()
+	c.warm[scid] = true
+	c.last = scid
+	return c
 }
 
 // touched records in the successor states that the gossip path has looked scid up
@@ -467,20 +499,7 @@ func (n *c20Model) replayHeld(held []c20Held, now int64, v *c20Verdict) {
 	for i := range idx {
 		idx[i] = i
 	}
-	apply := func() {
-		cur := n
-		for _, i := range idx {
-			sub := cur.step(held[i].msg, now)
-			if sub.Valid {
-				for _, r := range sub.Relayable {
-					if !relay[string(r)] {
-						relay[string(r)] = true
-						v.Relayable = append(v.Relayable, r)
-					}
-				}
-			}
-			cur = sub.After[0]
-		}
+	finish := func(cur *c20Model) {
 		r := cur.render()
 		k := strings.Join(r, "\n") + "|" + cur.key()
 		if !seen[k] {
@@ -489,6 +508,28 @@ func (n *c20Model) replayHeld(held []c20Held, now int64, v *c20Verdict) {
 			v.After = append(v.After, cur)
 		}
 	}
+	var walk func(cur *c20Model, pos int)
+	walk = func(cur *c20Model, pos int) {
+		if pos == len(idx) {
+			finish(cur)
+			return
+		}
+		sub := cur.step(held[idx[pos]].msg, now)
+		if sub.Valid {
+			for _, r := range sub.Relayable {
+				if !relay[string(r)] {
+					relay[string(r)] = true
+					v.Relayable = append(v.Relayable, r)
+				}
+			}
+			if sub.Suppressed != "" {
+				// a documented defence may drop this one held message
+				walk(cur, pos+1)
+			}
+		}
+		walk(sub.After[0], pos+1)
+	}
+	apply := func() { walk(n, 0) }
 	perm = func(k int) {
 		if k == len(idx) {
 			apply()
